@@ -313,6 +313,54 @@ func c17(c *Ctx) {
 				}
 			}
 			r.Check(found, "C17.Y2", sop.Name(), "tests ErrSessionNotYetSeen", c.P.Pos(sop.Node().Pos()), "found", "sessionOrProxy does not distinguish ErrSessionNotYetSeen")
+			// … and nothing else decides: every edge that can be taken with "not yet seen" on a non-leader must not reach a 404
+			for _, v := range g.V {
+				for _, e := range v.Succ {
+					if e.Cond == nil || e.Tag != nil {
+						continue
+					}
+					mentions := false
+					ast.Inspect(e.Cond, func(n ast.Node) bool {
+						if ex, ok := n.(ast.Expr); ok {
+							if isN, _ := isNYS(info, ex); isN {
+								mentions = true
+							}
+						}
+						return true
+					})
+					if !mentions {
+						continue
+					}
+					// the edge excludes the dangerous case iff some clause consists only of {err != NotYetSeen, State() == Leader}
+					safe := implied(c.clausesOf(info, sop.Node(), e.Cond, e.Val, 0), func(l lit) bool {
+						if isN, eq := isNYS(info, l.E); isN {
+							return eq != l.Pos // "err != NotYetSeen" holds
+						}
+						if be, ok := ast.Unparen(l.E).(*ast.BinaryExpr); ok && (refersTo(info, be.Y, pathRaft, "Leader") || refersTo(info, be.X, pathRaft, "Leader")) {
+							return (be.Op == token.EQL && l.Pos) || (be.Op == token.NEQ && !l.Pos)
+						}
+						return false
+					})
+					if safe {
+						continue
+					}
+					reach := g.Reach(e.To, nil, nil)
+					bad := false
+					for _, x := range g.V {
+						if (reach[x.ID] || x.ID == e.To) && is404(info, x) {
+							// unless the proxy hand-off lies on every path to it (the function returns after proxying)
+							bad = true
+							if g.DominatedBy(x.ID, func(y *cfgx.Vertex) bool {
+								return containsCall(info, y, func(fn *types.Func, _ *ast.CallExpr) bool { return isFunc(fn, "api", "(*HTTP).maybeProxyToLeader") })
+							}) {
+								bad = false
+							}
+						}
+					}
+					r.Check(!bad, "C17.Y2", sop.Name(), "no 404 for 'not yet seen' on a non-leader", c.P.Pos(e.Cond.Pos()), "edges that admit err == ErrSessionNotYetSeen on a follower do not reach the 404 answer",
+						"a node that is not the leader can answer 404 for a session it has not seen yet (a further condition next to the leader test, e.g. no known leader during an election): the client believes its live session is gone")
+				}
+			}
 			// the proxied request must not also be handled locally: the error is returned to the caller
 		}
 		if hgm := c.MustFunc("api.(*HTTP).handleGetMessages"); hgm != nil {
